@@ -32,14 +32,35 @@ inductive Outcome
   | fail
 deriving DecidableEq, Repr
 
-/-- ClientHello (version, suites) -/
+/-- ClientHello (version, suites).  GMSSL client (`makeClientHelloGM`, repaired): the configured ids, in order, that
+    have a row in `gmCipherSuites` and are not ECDHE suites (before the repair: every id with a row, so the default
+    hello advertised e011 / e051 although the client can never complete that key exchange). -/
 def hello (p : Params) : Nat × List Suite :=
   match p.client with
-  | .gm => (Gen.TLS.versionGMSSL, (p.csuites.getD gmDefaultList).filter isGM)
+  | .gm => (Gen.TLS.versionGMSSL, (p.csuites.getD gmDefaultList).filter gmClientKx)
   | .tls v => (v, (p.csuites.getD tlsDefaultList).filter (fun s =>
       match tlsRow s with
       | some (_, _, _, tls12, _) => !tls12 || decide (v ≥ Gen.TLS.versionTLS12)
       | none => false))
+
+/-- what the suite list of a GMSSL client's ClientHello is for a configured `CipherSuites` (none = default) -/
+def gmOffer (cs : Option (List Suite)) : List Suite :=
+  (hello ⟨.gm, .gm, cs, none, false, 0, 0, .rsa⟩).2
+
+/-- an independent GM/T 0024 server with its own preference order: the first suite of its order that the
+    ClientHello offers (it may implement both key exchanges, so nothing else restricts it) -/
+def peerSelect (pref offer : List Suite) : Option Suite :=
+  pref.find? (fun s => offer.contains s)
+
+/-- what the GMSSL client does with the suite of a ServerHello: `pickCipherSuite` refuses a suite that is not in
+    its own hello ("server chose an unconfigured cipher suite"); for a suite of its hello the key exchange either
+    can be completed, or is one the client must refuse (`ecdheKeyAgreementGM.processServerKeyExchange`) -/
+inductive Meets | unconfigured | proceeds | refusesKx
+deriving DecidableEq, Repr
+
+def clientMeets (offer : List Suite) (sel : Suite) : Meets :=
+  if !offer.contains sel then .unconfigured
+  else if gmClientKx sel then .proceeds else .refusesKx
 
 /-- `Config.mutualVersion` with default Min/MaxVersion -/
 def mutualVersion (v : Nat) : Option Nat :=
